@@ -4,10 +4,16 @@
    Examples / witnesses: Tree/FollowWitness.v.
 
    COVERAGE of the operation alphabet (DESIGN.md section 7 rule):
-     proved [U], every table set, every world with TreeFacts /\ Inv04 /\ Inv05 (= Inv06), every reference graph:
-        OpSetItemName                (C06_rename, C06_rename_rewrites_prefix)
-     PENDING (covered by the history correspondence and the implementation-side oracle of checks/c06.py only):
-        OpMove, OpMoveAt within one model (C06_move_local) and across models (C06_move_cross)
+     proved [U], every table set (TablesOK for the moves), every world with TreeFacts /\ Inv04 /\ Inv05 (= Inv06),
+     every reference graph:
+        OpSetItemName                              (C06_rename, C06_rename_rewrites_prefix)
+        OpMove, OpMoveAt within ONE model when the moved element is IDENTIFIABLE, including the renaming by
+        make_unique_item_name and the re-positioning inside the same parent
+                                                   (C06_move_local_partial, C06_move_at_local_partial)
+     PENDING = pending06 (covered by the history correspondence and the implementation-side oracle of checks/c06.py only):
+        OpMove / OpMoveAt of a NON-identifiable container holding identifiable elements (the per-path
+        fix_identifiables loop of move_element_local), and OpMove / OpMoveAt ACROSS models (move_element_full,
+        C06_move_cross).
      all other constructors do not rename or move and are not the subject of C06.
 
    FINDING kept on purpose (known finding C06-dangling-prefix-rewritten): set_item_name rewrites EVERY reference of the
@@ -15,7 +21,7 @@
    "/p1/zzz" becomes "/q/zzz" when /p1 is renamed to q, although it is one of "all other references" of the
    property text (C06_rename_dangling_refuted).  For references that resolve, clause (2) shows the text is kept. *)
 From AV Require Import Base.Bytes Base.Outcome Hash.HashModel Tree.Heap Tree.Ops Tree.Script Tree.Inv Tree.InvProofs
-  Tree.Index Tree.Refs Tree.Follow Tree.FollowProofsRename Tree.FollowWitness.
+  Tree.Index Tree.Refs Tree.Follow Tree.FollowProofsRename Tree.FollowProofsMove Tree.FollowWitness.
 Open Scope list_scope.
 Open Scope N_scope.
 
@@ -51,10 +57,76 @@ Theorem C06_rename_rewrites_prefix :
     (is_empty suf || starts_with_slash suf) = true -> ref_text T w' r = Some (new ++ suf).
 Proof. exact C06_rename_rewrites_prefix. Qed.
 
+(* [U] in terms of the operation alphabet: a successful OpMove / OpMoveAt that is not pending (Tree/Follow.v pending06:
+   the moved element is identifiable and both elements lie in the same model) satisfies the three clauses *)
+Theorem C06_move_partial :
+  forall (T : tables) (tab_el tab_en : nametab) (check_fn : N -> list N -> res bool) (LATEST : N)
+         (root_attrs : list (N * cdata)) (o : op) (w w' : world) (v : value),
+  TablesOK T check_fn -> Inv06 T check_fn w ->
+  run_op T tab_el tab_en check_fn LATEST root_attrs o w = Val (OK v, w') ->
+  pending06 T w o = false ->
+  forall h mv, (o = OpMove h mv \/ exists pos, o = OpMoveAt h mv pos) ->
+  exists m, model_of mv w = Val (OK m, w) /\
+    (forall rf x, live_ref T w m rf -> designates T w m rf x -> below T w mv x -> designates T w' m rf x) /\
+    (forall rf p, ref_text T w rf = Some p -> resolves T w m rf ->
+                  ~ (exists x, designates T w m rf x /\ below T w mv x) -> ref_text T w' rf = Some p) /\
+    (forall rf p src, SpecPath T w m mv src -> ref_text T w rf = Some p ->
+                      ~ (live_ref T w m rf /\ old_form src p) -> ref_text T w' rf = Some p).
+Proof. exact C06_move_partial. Qed.
+
+(* [U] move_element_here within one model, the moved element identifiable (pending06 = false):
+   (1) every reference of the model that designated the moved element or an element below it designates the same element
+       object afterwards - also when make_unique_item_name renamed the moved element;
+   (2) a reference that resolves to an element outside the moved subtree keeps its text;
+   (3) a reference keeps its text unless it is a live reference of this model whose text is the old path of the moved
+       element or lies below it at a '/' boundary. *)
+Theorem C06_move_local_partial :
+  forall (T : tables) (tab_en : nametab) (check_fn : N -> list N -> res bool) (LATEST : N)
+         (h mv : id) (w w' : world) (r : id) (m : N),
+  TablesOK T check_fn -> Inv06 T check_fn w ->
+  e_move_element_here T tab_en check_fn LATEST h mv w = Val (OK r, w') ->
+  model_of h w = Val (OK m, w) -> model_of mv w = Val (OK m, w) ->
+  identifiable T w mv = true ->
+  (forall rf x, live_ref T w m rf -> designates T w m rf x -> below T w mv x -> designates T w' m rf x) /\
+  (forall rf p, ref_text T w rf = Some p -> resolves T w m rf ->
+                ~ (exists x, designates T w m rf x /\ below T w mv x) -> ref_text T w' rf = Some p) /\
+  (forall rf p src, SpecPath T w m mv src -> ref_text T w rf = Some p ->
+                    ~ (live_ref T w m rf /\ old_form src p) -> ref_text T w' rf = Some p).
+Proof. exact C06_move_local_ident. Qed.
+
+(* [U] the same for move_element_here_at (any accepted position, including re-positioning inside the same parent) *)
+Theorem C06_move_at_local_partial :
+  forall (T : tables) (tab_en : nametab) (check_fn : N -> list N -> res bool) (LATEST : N)
+         (h mv : id) (pos : N) (w w' : world) (r : id) (m : N),
+  TablesOK T check_fn -> Inv06 T check_fn w ->
+  e_move_element_here_at T tab_en check_fn LATEST h mv pos w = Val (OK r, w') ->
+  model_of h w = Val (OK m, w) -> model_of mv w = Val (OK m, w) ->
+  identifiable T w mv = true ->
+  (forall rf x, live_ref T w m rf -> designates T w m rf x -> below T w mv x -> designates T w' m rf x) /\
+  (forall rf p, ref_text T w rf = Some p -> resolves T w m rf ->
+                ~ (exists x, designates T w m rf x /\ below T w mv x) -> ref_text T w' rf = Some p) /\
+  (forall rf p src, SpecPath T w m mv src -> ref_text T w rf = Some p ->
+                    ~ (live_ref T w m rf /\ old_form src p) -> ref_text T w' rf = Some p).
+Proof. exact C06_move_at_local_ident. Qed.
+
+(* non-vacuity of the move theorem: /p1/S moved into /p10 where an S exists: the moved element becomes S_1 and the
+   reference follows *)
+Theorem C06_move_example :
+  exists w w',
+    run_ops Tiny.tiny Tiny.tiny_el Tiny.tiny_en Tiny.tiny_check_fn Tiny.LATEST [] sM Tiny.empty_world = Val w /\
+    Inv06 Tiny.tiny Tiny.tiny_check_fn w /\
+    e_move_element_here Tiny.tiny Tiny.tiny_en Tiny.tiny_check_fn Tiny.LATEST 9 5 w = Val (OK 5, w') /\
+    model_of 9 w = Val (OK 0, w) /\ model_of 5 w = Val (OK 0, w) /\ identifiable Tiny.tiny w 5 = true /\
+    texts w  = [Some (BS "/p1"); Some (BS "/p1/S");    Some (BS "/p10"); Some (BS "/p1/zzz"); Some (BS "/q")] /\
+    texts w' = [Some (BS "/p1"); Some (BS "/p10/S_1"); Some (BS "/p10"); Some (BS "/p1/zzz"); Some (BS "/q")] /\
+    assoc_get (BS "/p1/S") (Tiny.idents_of w 0) = Some 5 /\ assoc_get (BS "/p10/S_1") (Tiny.idents_of w' 0) = Some 5 /\
+    assoc_get (BS "/p10/S") (Tiny.idents_of w' 0) = Some 17 /\ assoc_get (BS "/p1/S") (Tiny.idents_of w' 0) = None.
+Proof. exact move_follow_example. Qed.
+
 (* finding: "all other references keep their text" fails for a dangling reference below the old path *)
 Theorem C06_rename_dangling_refuted :
   exists w w' r p,
-    run_ops Tiny.tiny Tiny.tiny_el Tiny.tiny_en Tiny.tiny_check_fn Tiny.LATEST [] sR empty_world = Val w /\
+    run_ops Tiny.tiny Tiny.tiny_el Tiny.tiny_en Tiny.tiny_check_fn Tiny.LATEST [] sR Tiny.empty_world = Val w /\
     Inv06 Tiny.tiny Tiny.tiny_check_fn w /\
     e_set_item_name Tiny.tiny Tiny.tiny_check_fn Tiny.LATEST 2 (BS "q") w = Val (OK tt, w') /\
     ref_text Tiny.tiny w r = Some p /\ ~ resolves Tiny.tiny w 0 r /\ ref_text Tiny.tiny w' r <> Some p.
@@ -64,7 +136,7 @@ Proof. exact rename_dangling_rewritten. Qed.
    /p1/S, /p10, a dangling "/p1/zzz" and a dangling "/q" equal to the future path; rename p1 -> q *)
 Theorem C06_rename_example :
   exists w w',
-    run_ops Tiny.tiny Tiny.tiny_el Tiny.tiny_en Tiny.tiny_check_fn Tiny.LATEST [] sR empty_world = Val w /\
+    run_ops Tiny.tiny Tiny.tiny_el Tiny.tiny_en Tiny.tiny_check_fn Tiny.LATEST [] sR Tiny.empty_world = Val w /\
     Inv06 Tiny.tiny Tiny.tiny_check_fn w /\
     e_set_item_name Tiny.tiny Tiny.tiny_check_fn Tiny.LATEST 2 (BS "q") w = Val (OK tt, w') /\
     texts w  = [Some (BS "/p1"); Some (BS "/p1/S"); Some (BS "/p10"); Some (BS "/p1/zzz"); Some (BS "/q")] /\
